@@ -512,7 +512,8 @@ func checkReaderIndexSources(c *Ctx) {
 func checkBlockingQueryLoop(c *Ctx) {
 	p, r := c.P, c.R
 	// the loop function: in package blockingquery, calls a parameter of function type and SetQueryMeta
-	var loopFn *ssa.Function
+	// (a query run and its metadata may live in the loop function or in a helper split off it)
+	var loopFns []*ssa.Function
 	for _, f := range p.SrcFuncs("agent/blockingquery") {
 		callsParam, callsSet := false, false
 		for _, b := range f.Blocks {
@@ -528,122 +529,126 @@ func checkBlockingQueryLoop(c *Ctx) {
 			}
 		}
 		if callsParam && callsSet {
-			loopFn = f
+			loopFns = append(loopFns, f)
 		}
 	}
-	if loopFn == nil {
+	if len(loopFns) == 0 {
 		r.Unresolve("C06.Q", "blockingquery.<loop>", "no function in agent/blockingquery calls a query-function parameter and SetQueryMeta")
 		return
 	}
-	f := loopFn
-	name := core.FuncName(f)
-	var queryCalls []*ssa.Call
-	for _, b := range f.Blocks {
-		for _, in := range b.Instrs {
-			if call, ok := in.(*ssa.Call); ok {
-				if _, isParam := call.Call.Value.(*ssa.Parameter); isParam && !call.Call.IsInvoke() {
-					queryCalls = append(queryCalls, call)
-				}
-			}
-		}
-	}
-	for i, q := range queryCalls {
-		tag := fmt.Sprintf("%s/query-call#%d", name, i+1)
-		pos := p.Pos(q.Pos())
-		// (a) SetQueryMeta after every query run, before any return
-		mf := &core.MustFlow{F: f, Start: q, Gen: func(in ssa.Instruction) []string {
-			if ci, ok := in.(ssa.CallInstruction); ok && core.MethodNameOf(ci.Common()) == "SetQueryMeta" {
-				return []string{"meta"}
-			}
-			return nil
-		}}
-		mf.Run()
-		bad := ""
-		for _, rt := range core.Returns(f) {
-			if set, reach := mf.At(rt); reach && !set["meta"] {
-				bad = p.Pos(rt.Pos())
-			}
-		}
-		if bad != "" {
-			r.Violate("C06.Q.meta", tag, pos, "a return at "+bad+" is reachable after the query ran without SetQueryMeta (the reply would carry index 0 / no leader info)")
-		} else {
-			r.Hold("C06.Q.meta", tag, pos, "SetQueryMeta on every path from the query run to a return")
-		}
-		// is the call inside a loop?
-		inLoop := false
-		w := &core.Walk{Visit: func(in ssa.Instruction) { inLoop = inLoop || in == ssa.Instruction(q) }}
-		w.FromInstr(q)
-		if !inLoop {
-			continue
-		}
-		// (b) abandon channel watched before each run
-		mf2 := &core.MustFlow{F: f, Start: q, Gen: func(in ssa.Instruction) []string {
-			if ci, ok := in.(ssa.CallInstruction); ok {
-				cm := ci.Common()
-				if core.MethodNameOf(cm) == "Add" {
-					for _, a := range cm.Args {
-						if call, ok := a.(*ssa.Call); ok && core.MethodNameOf(&call.Call) == "AbandonCh" {
-							return []string{"abandon-watched"}
-						}
+	sort.Slice(loopFns, func(i, j int) bool { return loopFns[i].String() < loopFns[j].String() })
+	var loopFn *ssa.Function // the one whose query run sits in a loop
+	for _, f := range loopFns {
+		name := core.FuncName(f)
+		var queryCalls []*ssa.Call
+		for _, b := range f.Blocks {
+			for _, in := range b.Instrs {
+				if call, ok := in.(*ssa.Call); ok {
+					if _, isParam := call.Call.Value.(*ssa.Parameter); isParam && !call.Call.IsInvoke() {
+						queryCalls = append(queryCalls, call)
 					}
 				}
 			}
-			return nil
-		}}
-		mf2.Run()
-		if set, reach := mf2.At(q); reach && set["abandon-watched"] {
-			r.Hold("C06.Q.abandon", tag, pos, "the store's abandon channel is added to the watch set before every run of the query")
-		} else {
-			r.Violate("C06.Q.abandon", tag, pos, "the query re-runs without the store's AbandonCh in its watch set: a blocked query survives a snapshot restore on a dead store")
 		}
-		// (c) after a run, a successful return needs index progress, or having blocked (WatchCtx)
-		var progressEdges []core.Edge
-		for _, b := range f.Blocks {
-			for _, in := range b.Instrs {
-				cmp, ok := in.(*ssa.BinOp)
-				if !ok {
-					continue
+		for i, q := range queryCalls {
+			tag := fmt.Sprintf("%s/query-call#%d", name, i+1)
+			pos := p.Pos(q.Pos())
+			// (a) SetQueryMeta after every query run, before any return
+			mf := &core.MustFlow{F: f, Start: q, Gen: func(in ssa.Instruction) []string {
+				if ci, ok := in.(ssa.CallInstruction); ok && core.MethodNameOf(ci.Common()) == "SetQueryMeta" {
+					return []string{"meta"}
 				}
-				isGetIndex := func(v ssa.Value) bool {
-					call, ok := v.(*ssa.Call)
-					return ok && core.MethodNameOf(&call.Call) == "GetIndex"
-				}
-				te, _ := core.CondEdges(cmp)
-				if cmp.Op == token.GTR && isGetIndex(cmp.X) && !isGetIndex(cmp.Y) {
-					progressEdges = append(progressEdges, te...)
-				}
-				if cmp.Op == token.LSS && isGetIndex(cmp.Y) && !isGetIndex(cmp.X) {
-					progressEdges = append(progressEdges, te...)
+				return nil
+			}}
+			mf.Run()
+			bad := ""
+			for _, rt := range core.Returns(f) {
+				if set, reach := mf.At(rt); reach && !set["meta"] {
+					bad = p.Pos(rt.Pos())
 				}
 			}
-		}
-		cut := map[core.Edge]bool{}
-		for _, e := range progressEdges {
-			cut[e] = true
-		}
-		var offending *ssa.Return
-		w2 := &core.Walk{
-			Cut: func(b *ssa.BasicBlock, si int) bool { return cut[core.Edge{From: b, Succ: si}] },
-			Stop: func(in ssa.Instruction) bool {
-				if in == ssa.Instruction(q) {
-					return true // next iteration
+			if bad != "" {
+				r.Violate("C06.Q.meta", tag, pos, "a return at "+bad+" is reachable after the query ran without SetQueryMeta (the reply would carry index 0 / no leader info)")
+			} else {
+				r.Hold("C06.Q.meta", tag, pos, "SetQueryMeta on every path from the query run to a return")
+			}
+			// is the call inside a loop?
+			inLoop := false
+			w := &core.Walk{Visit: func(in ssa.Instruction) { inLoop = inLoop || in == ssa.Instruction(q) }}
+			w.FromInstr(q)
+			if !inLoop {
+				continue
+			}
+			loopFn = f
+			// (b) abandon channel watched before each run
+			mf2 := &core.MustFlow{F: f, Start: q, Gen: func(in ssa.Instruction) []string {
+				if ci, ok := in.(ssa.CallInstruction); ok {
+					cm := ci.Common()
+					if core.MethodNameOf(cm) == "Add" {
+						for _, a := range cm.Args {
+							if call, ok := a.(*ssa.Call); ok && core.MethodNameOf(&call.Call) == "AbandonCh" {
+								return []string{"abandon-watched"}
+							}
+						}
+					}
 				}
-				ci, ok := in.(ssa.CallInstruction)
-				return ok && core.MethodNameOf(ci.Common()) == "WatchCtx"
-			},
-			Visit: func(in ssa.Instruction) {
-				if rt, ok := in.(*ssa.Return); ok && core.ClassifyReturn(rt) != core.RetFailure {
-					offending = rt
+				return nil
+			}}
+			mf2.Run()
+			if set, reach := mf2.At(q); reach && set["abandon-watched"] {
+				r.Hold("C06.Q.abandon", tag, pos, "the store's abandon channel is added to the watch set before every run of the query")
+			} else {
+				r.Violate("C06.Q.abandon", tag, pos, "the query re-runs without the store's AbandonCh in its watch set: a blocked query survives a snapshot restore on a dead store")
+			}
+			// (c) after a run, a successful return needs index progress, or having blocked (WatchCtx)
+			var progressEdges []core.Edge
+			for _, b := range f.Blocks {
+				for _, in := range b.Instrs {
+					cmp, ok := in.(*ssa.BinOp)
+					if !ok {
+						continue
+					}
+					isGetIndex := func(v ssa.Value) bool {
+						call, ok := v.(*ssa.Call)
+						return ok && core.MethodNameOf(&call.Call) == "GetIndex"
+					}
+					te, _ := core.CondEdges(cmp)
+					if cmp.Op == token.GTR && isGetIndex(cmp.X) && !isGetIndex(cmp.Y) {
+						progressEdges = append(progressEdges, te...)
+					}
+					if cmp.Op == token.LSS && isGetIndex(cmp.Y) && !isGetIndex(cmp.X) {
+						progressEdges = append(progressEdges, te...)
+					}
 				}
-			},
-		}
-		w2.FromInstr(q)
-		if len(progressEdges) == 0 {
-			r.Violate("C06.Q.progress", tag, pos, "no `GetIndex() > minQueryIndex` test guards the loop exit")
-		} else if offending != nil {
-			r.Violate("C06.Q.progress", tag, pos, "the loop can return successfully at "+p.Pos(offending.Pos())+" without index progress and without having blocked on the watch set", w2.PathTo(p, offending.Block())...)
-		} else {
-			r.Hold("C06.Q.progress", tag, pos, "a successful return after a run needs GetIndex() > minQueryIndex or a completed WatchCtx")
+			}
+			cut := map[core.Edge]bool{}
+			for _, e := range progressEdges {
+				cut[e] = true
+			}
+			var offending *ssa.Return
+			w2 := &core.Walk{
+				Cut: func(b *ssa.BasicBlock, si int) bool { return cut[core.Edge{From: b, Succ: si}] },
+				Stop: func(in ssa.Instruction) bool {
+					if in == ssa.Instruction(q) {
+						return true // next iteration
+					}
+					ci, ok := in.(ssa.CallInstruction)
+					return ok && core.MethodNameOf(ci.Common()) == "WatchCtx"
+				},
+				Visit: func(in ssa.Instruction) {
+					if rt, ok := in.(*ssa.Return); ok && core.ClassifyReturn(rt) != core.RetFailure {
+						offending = rt
+					}
+				},
+			}
+			w2.FromInstr(q)
+			if len(progressEdges) == 0 {
+				r.Violate("C06.Q.progress", tag, pos, "no `GetIndex() > minQueryIndex` test guards the loop exit")
+			} else if offending != nil {
+				r.Violate("C06.Q.progress", tag, pos, "the loop can return successfully at "+p.Pos(offending.Pos())+" without index progress and without having blocked on the watch set", w2.PathTo(p, offending.Block())...)
+			} else {
+				r.Hold("C06.Q.progress", tag, pos, "a successful return after a run needs GetIndex() > minQueryIndex or a completed WatchCtx")
+			}
 		}
 	}
 	r.Floor("C06.Q.meta", 2)
